@@ -45,6 +45,7 @@ def spec_strategy(tier):
                 p["workers"][0]["resources"].append([missing, 1])
         spec["hashseeds"] = [draw(st.integers(0, 100)), draw(st.integers(101, 1000))]
         spec["log_file_mode"] = draw(st.sampled_from(["write", "write", "append"]))  # each run has a fresh directory either way
+        spec["replication_factor"] = draw(st.sampled_from([1, 1, 1, 2, 3]))  # replicas of a graph share its release policy object
         return spec
 
     return s()
@@ -92,6 +93,8 @@ def render(spec, d):
     ]
     if spec.get("log_file_mode", "write") != "write":
         args.append(f"--log_file_mode={spec['log_file_mode']}")
+    if spec.get("replication_factor", 1) > 1:
+        args.append(f"--replication_factor={spec['replication_factor']}")
     if pol.get("enforce_deadlines"):
         args.append("--enforce_deadlines")
     if fl.get("drop_skipped_tasks"):
@@ -145,7 +148,9 @@ def execute(spec):
             sources.append("conditionals")
         if spec["flags"]["runtime_variance"]:
             sources.append("runtime_variance")
-        res.classes = sources or ["no_randomness"]
+        res.classes = list(sources) or ["no_randomness"]
+        if spec.get("replication_factor", 1) > 1:
+            res.classes.append("replicated_graphs")
         if outs[0][0] != outs[1][0]:
             res.violations.append(Violation("exit_status_differs", f"exit codes {outs}; spec={json.dumps(spec)[:1500]}", "repro.exit_status_differs"))
             return res
@@ -181,7 +186,7 @@ def execute(spec):
 def policy_strategy(tier):
     pol = st.fixed_dictionaries({
         "kind": st.sampled_from(["poisson", "gamma", "fixed_gamma"]), "rate": st.sampled_from([0.05, 0.2, 1.0]), "base_rate": st.sampled_from([0.01, 0.1]),
-        "coefficient": st.sampled_from([0.5, 1.0, 2.0]), "n": st.integers(2, 6), "start": st.sampled_from([0, 5, 17]),
+        "coefficient": st.sampled_from([0.5, 1.0, 2.0]), "n": st.integers(2, 6), "start": st.sampled_from([0, 5, 17]), "calls": st.sampled_from([1, 2, 3]),
     })
     return st.fixed_dictionaries({"seed": st.integers(0, 2**20), "policies": st.lists(pol, min_size=1, max_size=4),
                                   "hashseeds": st.tuples(st.integers(0, 100), st.integers(101, 1000)).map(list)})
@@ -206,6 +211,8 @@ def exec_policies(case):
             break
     res.nontrivial = True
     res.classes = sorted({"policy=" + p_["kind"] for p_ in case["policies"]})
+    if any(p_.get("calls", 1) > 1 for p_ in case["policies"]):
+        res.classes.append("policy_object_asked_again")
     return res
 
 
